@@ -22,13 +22,37 @@ FILE_M = "src/zorg/storage/file/_manager.py"
 FILE_U = "src/zorg/service/note_utils.py"
 
 
+def _lits(fi, e: ast.expr):
+    """String literals of a tuple / list expression, looking through a module-level constant."""
+    if isinstance(e, ast.Name) and isinstance(fi.module.assigns.get(e.id), (ast.Tuple, ast.List, ast.Constant)):
+        e = fi.module.assigns[e.id]
+    return literal_strs(e)
+
+
 def _note_type_values(model: PyModel) -> set[str]:
     ci = model.cls("zorg.domain.types.NoteType")
     return {s.value.value for s in ci.node.body if isinstance(s, ast.Assign) and isinstance(s.value, ast.Constant)}
 
 
+def _affine(e: ast.expr, env: dict) -> tuple:
+    """expr -> (symbol, offset): `x`, `x + 1`, `x - 1`, `len(xs)`; anything else is its own symbol."""
+    if isinstance(e, ast.Name):
+        return env.get(e.id, (e.id, 0))
+    if isinstance(e, ast.BinOp) and isinstance(e.op, (ast.Add, ast.Sub)) and isinstance(e.right, ast.Constant) and isinstance(e.right.value, int):
+        s, o = _affine(e.left, env)
+        return (s, o + (e.right.value if isinstance(e.op, ast.Add) else -e.right.value))
+    txt = ast.unparse(e)
+    for nm, (s, o) in env.items():
+        pass
+    return (txt, 0)
+
+
 def _conservation(run: Run, model: PyModel) -> None:
-    fi = model.func(F_ADD)
+    """lines[:S] + note + lines[E:]  with  E == S, or E == S + 1 and lines[S] shown blank on that path.
+    S and E are followed as affine forms (symbol + constant) through the paths of add_note with its helpers folded in."""
+    from ..flatten import flat_info
+
+    fi = flat_info(model, F_ADD)
     fn = fi.node
     concat = None
     for n in walk_no_nested(fn):
@@ -37,72 +61,99 @@ def _conservation(run: Run, model: PyModel) -> None:
             if len(subs) == 2 and all(base_name(s.value) == base_name(subs[0].value) for s in subs):
                 if concat is None or len(ast.unparse(n)) > len(ast.unparse(concat)):
                     concat = n
+    slice_assign = None
     if concat is None:
+        # in-place form: lines[S:E] = note_lines
+        for n in walk_no_nested(fn):
+            if isinstance(n, ast.Assign) and isinstance(n.targets[0], ast.Subscript) and isinstance(n.targets[0].slice, ast.Slice) and n.targets[0].slice.lower is not None and n.targets[0].slice.upper is not None:
+                slice_assign = n
+    if concat is None and slice_assign is None:
         run.undecided("C10.R1", "add_note", "cannot find `lines[:s] + new + lines[e:]`")
         return
-    subs = [s for s in ast.walk(concat) if isinstance(s, ast.Subscript) and isinstance(s.slice, ast.Slice)]
-    head = next((s for s in subs if s.slice.lower is None and s.slice.upper is not None), None)
-    tail = next((s for s in subs if s.slice.upper is None and s.slice.lower is not None), None)
-    if head is None or tail is None or not isinstance(head.slice.upper, ast.Name) or not isinstance(tail.slice.lower, ast.Name):
-        run.undecided("C10.R1", "add_note", "slice bounds are not plain variables")
-        return
-    lines, S, E = base_name(head.value), head.slice.upper.id, tail.slice.lower.id
+    if concat is not None:
+        subs = [s for s in ast.walk(concat) if isinstance(s, ast.Subscript) and isinstance(s.slice, ast.Slice)]
+        head = next((s for s in subs if s.slice.lower is None and s.slice.upper is not None), None)
+        tail = next((s for s in subs if s.slice.upper is None and s.slice.lower is not None), None)
+        if head is None or tail is None:
+            run.undecided("C10.R1", "add_note", "the two slices are not lines[:s] and lines[e:]")
+            return
+        lines, S_expr, E_expr, site = base_name(head.value), head.slice.upper, tail.slice.lower, concat
+    else:
+        t = slice_assign.targets[0]
+        lines, S_expr, E_expr, site = base_name(t.value), t.slice.lower, t.slice.upper, slice_assign
     n_paths = 0
     for p in enum_paths(fn, unroll=1):
-        ci = first_index(p, lambda n: n is concat)
+        ci = first_index(p, lambda n: n is site)
         if ci < 0:
             continue
         n_paths += 1
-        rel = None  # relation of E to S: "equal" | "plus1"
-        blank = False
-        iter_blank: dict[str, bool] = {}  # loop index var -> its line is known blank in this iteration
-        idx_of_line: dict[str, str] = {}
+        env: dict[str, tuple] = {}
+        ver: dict[str, int] = {}
+        blank: set[tuple] = set()
+        line_of: dict[str, str] = {}  # loop element variable -> index variable of the same iteration
+
+        def fresh(nm: str) -> tuple:
+            ver[nm] = ver.get(nm, 0) + 1
+            return (f"{nm}#{ver[nm]}", 0)
+
         for ev in p.events[:ci]:
             if ev[0] == "iter":
-                iter_blank = {}
-                t = ev[1].target
-                it = ev[1].iter
-                if isinstance(t, ast.Tuple) and len(t.elts) == 2 and isinstance(it, ast.Call) and ast.unparse(it.func) == "enumerate" and it.args and ast.unparse(it.args[0]) == lines:
-                    idx_of_line = {t.elts[1].id: t.elts[0].id}
+                t, it = ev[1].target, ev[1].iter
+                for nme in [x.id for x in ast.walk(t) if isinstance(x, ast.Name)]:
+                    env[nme] = fresh(nme)
+                line_of = {}
+                if isinstance(t, ast.Tuple) and len(t.elts) == 2 and isinstance(it, ast.Call) and ast.unparse(it.func) == "enumerate" and it.args and base_name(it.args[0]) == lines \
+                        and all(isinstance(x, ast.Name) for x in t.elts):
+                    line_of = {t.elts[1].id: t.elts[0].id}
             elif ev[0] == "assume" and ev[2] is True:
                 e = ev[1]
-                if isinstance(e, ast.Compare) and isinstance(e.ops[0], ast.Eq) and isinstance(e.comparators[0], ast.Constant) and e.comparators[0].value == "":
+                if isinstance(e, ast.Compare) and len(e.ops) == 1 and isinstance(e.ops[0], ast.Eq) and isinstance(e.comparators[0], ast.Constant) and e.comparators[0].value == "":
                     l = e.left
-                    if isinstance(l, ast.Call) and isinstance(l.func, ast.Attribute) and l.func.attr == "strip":
+                    if isinstance(l, ast.Call) and isinstance(l.func, ast.Attribute) and l.func.attr == "strip" and not l.args:
                         tgt = l.func.value
-                        if isinstance(tgt, ast.Name) and tgt.id in idx_of_line:
-                            iter_blank[idx_of_line[tgt.id]] = True
-                        if isinstance(tgt, ast.Subscript) and base_name(tgt.value) == lines and isinstance(tgt.slice, ast.Name) and tgt.slice.id == S:
-                            blank = True
-            elif ev[0] == "stmt" and isinstance(ev[1], ast.Assign):
+                        if isinstance(tgt, ast.Name) and tgt.id in line_of:
+                            blank.add(_affine(ast.Name(id=line_of[tgt.id], ctx=ast.Load()), env))
+                        if isinstance(tgt, ast.Subscript) and base_name(tgt.value) == lines and not isinstance(tgt.slice, ast.Slice):
+                            blank.add(_affine(tgt.slice, env))
+                elif isinstance(e, ast.UnaryOp) and isinstance(e.op, ast.Not) and isinstance(e.operand, ast.Call) and isinstance(e.operand.func, ast.Attribute) and e.operand.func.attr == "strip":
+                    tgt = e.operand.func.value  # `not line.strip()`
+                    if isinstance(tgt, ast.Name) and tgt.id in line_of:
+                        blank.add(_affine(ast.Name(id=line_of[tgt.id], ctx=ast.Load()), env))
+                    if isinstance(tgt, ast.Subscript) and base_name(tgt.value) == lines and not isinstance(tgt.slice, ast.Slice):
+                        blank.add(_affine(tgt.slice, env))
+            elif ev[0] == "stmt" and isinstance(ev[1], (ast.Assign, ast.AnnAssign)) and getattr(ev[1], "value", None) is not None:
                 st = ev[1]
-                names = [t.id for t in st.targets if isinstance(t, ast.Name)]
-                v = st.value
-                if S in names and E in names:
-                    rel, blank = "equal", False
-                elif S in names:
-                    blank = isinstance(v, ast.Name) and iter_blank.get(v.id, False)
-                    rel = None if rel else rel
-                    rel = None
-                elif E in names:
-                    if isinstance(v, ast.Name) and v.id == S:
-                        rel = "equal"
-                    elif isinstance(v, ast.BinOp) and isinstance(v.op, ast.Add) and isinstance(v.left, ast.Name) and v.left.id == S and isinstance(v.right, ast.Constant) and v.right.value == 1:
-                        rel = "plus1"
-                    else:
-                        rel = "unknown"
-        ok = rel == "equal" or (rel == "plus1" and blank)
-        run.check("C10.R1", "the line replaced by the moved note is blank (or nothing is replaced)", ok, "FileManager.add_note", concat,
-                  f"on a path of add_note `{lines}[{S}]` is dropped ({E} = {S} + 1) without having been shown to be blank: the destination loses that line "
-                  "(e.g. a page whose last line is a section header without trailing newline)" if rel == "plus1" else
-                  f"on a path of add_note the relation between `{S}` and `{E}` is not established ({rel}): lines of the destination may be lost or duplicated",
-                  file=FILE_M, node=concat, detail=dict(path=p.describe(16)))
+                tg = st.targets if isinstance(st, ast.Assign) else [st.target]
+                for t in tg:
+                    if isinstance(t, ast.Name):
+                        v = st.value
+                        if isinstance(v, (ast.Name, ast.BinOp)) or (isinstance(v, ast.Call) and ast.unparse(v.func) == "len"):
+                            form = _affine(v, env)
+                            # an expression that is its own symbol and mentions variables is re-versioned when those change; keep as text
+                            env[t.id] = form
+                        else:
+                            env[t.id] = fresh(t.id)
+                    elif isinstance(t, (ast.Tuple, ast.List)):
+                        for x in ast.walk(t):
+                            if isinstance(x, ast.Name):
+                                env[x.id] = fresh(x.id)
+            elif ev[0] == "stmt" and isinstance(ev[1], ast.AugAssign) and isinstance(ev[1].target, ast.Name):
+                env[ev[1].target.id] = fresh(ev[1].target.id)
+        S, E = _affine(S_expr, env), _affine(E_expr, env)
+        same = S[0] == E[0]
+        ok = same and (E[1] == S[1] or (E[1] == S[1] + 1 and S in blank))
+        if same and E[1] == S[1] + 1 and S not in blank:
+            msg = (f"on a path of add_note `{lines}[{ast.unparse(S_expr)}]` is dropped (the tail starts one line later) without having been shown to be blank: the destination loses that line "
+                   "(e.g. a page whose last line is a section header without trailing newline)")
+        else:
+            msg = f"on a path of add_note the relation between `{ast.unparse(S_expr)}` = {S} and `{ast.unparse(E_expr)}` = {E} is not `equal` or `one blank line apart`: lines of the destination may be lost or duplicated"
+        run.check("C10.R1", "the line replaced by the moved note is blank (or nothing is replaced)", ok, "FileManager.add_note", site, msg, file=FILE_M, node=site, detail=dict(path=p.describe(16)))
     run.floor("paths through the insertion in add_note", n_paths, 2)
     # the inserted lines are the note's own text
-    mid = [x for x in ast.walk(concat) if isinstance(x, ast.Call) and isinstance(x.func, ast.Attribute) and x.func.attr == "split"]
+    mid = [x for x in ast.walk(fn) if isinstance(x, ast.Call) and isinstance(x.func, ast.Attribute) and x.func.attr == "split"]
     ok = any("to_string" in ast.unparse(m) and m.args and isinstance(m.args[0], ast.Constant) and m.args[0].value == "\n" for m in mid)
-    run.check("C10.R1", "the inserted lines are note.to_string() split on '\\n'", ok, "FileManager.add_note", concat, "the inserted text is not note.to_string().split('\\n')", file=FILE_M, node=concat)
-    for nm, f in (("add_note", fn), ("delete_note", model.func(F_DEL).node)):
+    run.check("C10.R1", "the inserted lines are note.to_string() split on '\\n'", ok, "FileManager.add_note", site, "the inserted text is not note.to_string().split('\\n')", file=FILE_M, node=site)
+    for nm, f in (("add_note", fn), ("delete_note", flat_info(model, F_DEL).node)):
         splits = [c for c in find_calls(f, "split") if "read_text" in ast.unparse(c)]
         bad = [c for c in splits if not (c.args and isinstance(c.args[0], ast.Constant) and c.args[0].value == "\n")]
         bad += find_calls(f, "splitlines")
@@ -113,12 +164,21 @@ def _conservation(run: Run, model: PyModel) -> None:
 
 
 def _locator(run: Run, model: PyModel) -> None:
-    fi = model.func(F_DEL)
+    from ..flatten import flat_info
+
+    fi = flat_info(model, F_DEL)
     fn = fi.node
     cond = None
-    for n in walk_no_nested(fn):
-        if isinstance(n, ast.If) and any(isinstance(s, ast.Assign) and "start" in ast.unparse(s.targets[0]) for s in n.body):
-            cond = n.test
+    # the predicate under which the scan over the page's lines records the index of the current line
+    for loop in walk_no_nested(fn):
+        if not (isinstance(loop, ast.For) and isinstance(loop.target, ast.Tuple) and len(loop.target.elts) == 2 and isinstance(loop.target.elts[0], ast.Name)
+                and isinstance(loop.iter, ast.Call) and ast.unparse(loop.iter.func) == "enumerate"):
+            continue
+        idx = loop.target.elts[0].id
+        for n in ast.walk(loop):
+            if isinstance(n, ast.If) and any((isinstance(s, ast.Assign) and isinstance(s.value, ast.Name) and s.value.id == idx) or (isinstance(s, ast.Return) and isinstance(s.value, ast.Name) and s.value.id == idx)
+                                             for s in n.body):
+                cond = n.test
     if cond is None:
         run.undecided("C10.R2", "delete_note", "cannot find the predicate that locates the note's first line")
         return
@@ -139,7 +199,7 @@ def _locator(run: Run, model: PyModel) -> None:
                       file=h.file, node=h.node)
             # the prefix tuple of the locator covers every kind
             kinds = _note_type_values(model)
-            tup = [literal_strs(c.args[0]) for c in find_calls(h.node, "startswith") if c.args and literal_strs(c.args[0])]
+            tup = [_lits(h, c.args[0]) for c in find_calls(h.node, "startswith") if c.args and _lits(h, c.args[0])]
             if tup:
                 got = set(tup[0])
                 run.check("C10.R3", "locator prefixes == {kind + ' '}", got == {k + " " for k in kinds}, h.name, f"prefixes {sorted(got)}",
@@ -154,8 +214,10 @@ def _locator(run: Run, model: PyModel) -> None:
 
 def _tables(run: Run, model: PyModel) -> None:
     kinds = _note_type_values(model)
-    fa = model.func(F_ADD)
-    tup = [literal_strs(c.args[0]) for c in find_calls(fa.node, "startswith") if c.args and literal_strs(c.args[0])]
+    from ..flatten import flat_info
+
+    fa = flat_info(model, F_ADD)
+    tup = [_lits(fa, c.args[0]) for c in find_calls(fa.node, "startswith") if c.args and _lits(fa, c.args[0])]
     if not tup:
         run.undecided("C10.R3", "add_note", "cannot find the item-prefix tuple")
     else:
@@ -169,36 +231,67 @@ def _tables(run: Run, model: PyModel) -> None:
         toks = [t for lbl in g.child_at(rule, 0) if lbl[0] == "tok" for t in [lbl[1]]]
         lits = {g.token_literal(t) or _lexer_literal(run, g.token_name(t)) for t in toks}
         gram[name] = next(iter(lits)) if len(lits) == 1 else None
-    fm = model.func(F_MUTATES)
-    tab1 = {}
-    for n in walk_no_nested(fm.node):
-        if isinstance(n, ast.For) and isinstance(n.iter, ast.List):
-            for elt in n.iter.elts:
-                if isinstance(elt, ast.Tuple) and len(elt.elts) == 3 and isinstance(elt.elts[0], ast.Constant):
-                    nm = [c.value for c in ast.walk(elt.elts[1]) if isinstance(c, ast.Constant) and isinstance(c.value, str)]
-                    attr = elt.elts[2].attr if isinstance(elt.elts[2], ast.Attribute) else None
-                    if nm:
-                        tab1[nm[0]] = (elt.elts[0].value, attr)
-    fh = model.func(F_HIDDEN)
-    tab2 = {}
-    for n in walk_no_nested(fh.node):
-        if isinstance(n, ast.If):
-            for test, body in if_chain(n):
-                if isinstance(test, ast.Compare) and isinstance(test.comparators[0], ast.Constant) and "mtype" in ast.unparse(test.left):
-                    for s in body:
-                        if isinstance(s, ast.Assign) and "prefix" in ast.unparse(s.targets[0]) and isinstance(s.value, ast.Constant):
-                            tab2[test.comparators[0].value] = s.value.value
-    run.sample(dict(rule="C10.R3", grammar=gram, mutates={k: v[0] for k, v in tab1.items()}, add_hidden=tab2))
     run.floor("tag kinds in the grammar table", len([v for v in gram.values() if v]), 4)
-    for name, sig in gram.items():
-        t1 = tab1.get(name)
-        run.check("C10.R3", f"{name}: inherited-tag detection uses the grammar's sigil and the matching note field", t1 is not None and t1[0] == sig and t1[1] == name, "_get_hidden_metadata_mutates",
-                  f"{name}: {t1}", f"_get_hidden_metadata_mutates pairs {name} with {t1} but the grammar writes {name} tags with {sig!r}: inherited {name} are lost or written with the wrong sigil",
-                  file=FILE_U, node=fm.node)
-        run.check("C10.R3", f"{name}: inherited tags are written with the grammar's sigil", tab2.get(name) == sig, "_add_hidden_metadata", f"{name}: {tab2.get(name)!r}",
-                  f"_add_hidden_metadata writes {name} with {tab2.get(name)!r}, the grammar expects {sig!r}", file=FILE_U, node=fh.node)
-    props = any(isinstance(n, ast.For) and "properties" in ast.unparse(n.iter) for n in walk_no_nested(fm.node))
-    run.check("C10.R3", "inherited properties are made explicit too", props, "_get_hidden_metadata_mutates", "properties loop", "inherited properties are not carried along", file=FILE_U, node=fm.node)
+    _hidden_metadata_eval(run, model, gram)
+
+
+def _hidden_metadata_eval(run: Run, model: PyModel, gram: dict) -> None:
+    """Abstract evaluation of _add_hidden_metadata on generic notes (marker values): every inherited tag / property the body
+    does not already spell out is inserted, with the grammar's sigil, directly after the note's own ZID -- also when a
+    modify date precedes the ZID -- and nothing already present is repeated."""
+    from ..absint import Interp, Raised, State
+    from ..absval import HObj, Ref
+
+    I = Interp(model)
+    ZID = "240101#00"
+    vals = {"projects": "P", "areas": "A", "contexts": "C", "people": "Q"}
+    if any(v is None for v in gram.values()):
+        run.undecided("C10.R3", "grammar", f"cannot read the tag sigils from the grammar: {gram}")
+        return
+    words = {gram[k] + v for k, v in vals.items()}
+    scen = [
+        ("plain item", f"{ZID} text", f"{ZID} ", " text", words | {"k::v"}),
+        ("item with a modify date", f"240102 {ZID} text", f"240102 {ZID} ", " text", words | {"k::v"}),
+        ("tag and property already in the body", f"{ZID} text {gram['areas']}A k::w", f"{ZID} ", f" text {gram['areas']}A k::w", words - {gram["areas"] + "A"}),
+    ]
+    n = 0
+    for label, body, pre, post, want in scen:
+        st = State()
+
+        def L(*xs):
+            return st.alloc(HObj("list", items=list(xs)))
+
+        note = st.alloc(HObj("obj", cls="zorg.domain.models._page.Note", fields=dict(
+            body=body, zid=ZID, projects=L("P"), areas=L("A"), contexts=L("C"), people=L("Q"), properties=st.alloc(HObj("dict", fields={"k": "v"})), links=L(),
+            todo_payload=None, create_date=None, modify_date=None, line_no=3, file_path=None, block=None)))
+        try:
+            res = I.run_function(F_HIDDEN, [note], st=st)
+        except Exception as e:
+            run.undecided("C10.R3", "_add_hidden_metadata", f"cannot evaluate abstractly: {type(e).__name__}: {e}")
+            return
+        for v, s in res:
+            n += 1
+            if isinstance(v, Raised) or s.imprecise or not isinstance(v, Ref):
+                run.undecided("C10.R3", "_add_hidden_metadata", f"{label}: " + (f"raises {v.exc}" if isinstance(v, Raised) else "; ".join(s.imprecise[:2]) or repr(v)))
+                continue
+            got = s.obj(v).fields.get("body")
+            if not isinstance(got, str):
+                run.undecided("C10.R3", "_add_hidden_metadata", f"{label}: body evaluates to {got!r}")
+                continue
+            anchored = got.startswith(pre) and got.endswith(post) and len(got) >= len(pre) + len(post)
+            run.check("C10.R5", f"{label}: inherited metadata is inserted directly after the note's own ZID", anchored, "_add_hidden_metadata", f"{label}: {body!r} -> {got!r}",
+                      f"for a {label} ({body!r}) the body becomes {got!r}: the metadata is not spliced in right after the ZID (with a modify date in front, tags between date and ZID "
+                      "make the note lose its identity when the page is compiled again)", file=FILE_U, node=model.func(F_HIDDEN).node)
+            if anchored:
+                mid = got[len(pre):len(got) - len(post)].split()
+                run.check("C10.R3", f"{label}: exactly the missing inherited tags and properties are written, with the grammar's sigils", sorted(mid) == sorted(want) and len(mid) == len(set(mid)),
+                          "_add_hidden_metadata", f"{label}: inserted {mid}",
+                          f"for a {label} the inserted words are {mid}, expected {sorted(want)} (sigils from the grammar: {gram}): inherited metadata is lost, duplicated or written with the wrong sigil",
+                          file=FILE_U, node=model.func(F_HIDDEN).node)
+            orig = s.obj(note).fields.get("body")
+            run.check("C10.R4", f"{label}: the note handed in is not modified in place", orig == body, "_add_hidden_metadata", "mutates its argument",
+                      "the note object read from the index is modified in place: delete_note afterwards looks for a body that no longer matches the source page", file=FILE_U, node=model.func(F_HIDDEN).node)
+    run.floor("hidden-metadata evaluations", n, 3)
 
 
 def _lexer_literal(run: Run, token_name: str):
@@ -256,8 +349,10 @@ def _order_and_errors(run: Run, model: PyModel) -> None:
                                   "sections are not spelled out and are lost (or replaced by those of the place it lands in)", file=FILE_U, node=c, detail=dict(path=p.describe(14)))
     run.floor("add_note sites on paths of _move_note", n_add, 1)
     # add_note / delete_note write the page themselves on every successful path
+    from ..flatten import flat_info
+
     for q, nm in ((F_ADD, "add_note"), (F_DEL, "delete_note")):
-        fi = model.func(q)
+        fi = flat_info(model, q)
         writes = [nd for nd, e in eff.direct(fi) if e.kind == "FILE_WRITE"]
         k = 0
         for p in enum_paths(fi.node):
@@ -325,6 +420,5 @@ def check(run: Run) -> None:
     _locator(run, model)
     _tables(run, model)
     _order_and_errors(run, model)
-    _hidden_anchor(run, model)
     run.units = dict(functions=[F_ADD, F_DEL, F_MOVE, F_DONE, F_HIDDEN, F_MUTATES])
     run.assumptions += ["Path.read_text/write_text semantics", "the index's note.body line count equals the note's line count in the file"]
